@@ -2427,6 +2427,10 @@ def _emit_block(
             lines.append(f"{indent}      delay(__redu_off_ms);")
             lines.append(f"{indent}    }}")
             lines.append(f"{indent}  }}")
+            # a beep always ends silent, also when it is asked for zero repetitions
+            lines.append(f"{indent}  noTone({pin_code});")
+            lines.append(f"{indent}  {state_var} = false;")
+            lines.append(f"{indent}  {current_var} = 0.0f;")
             lines.append(f"{indent}}}")
             continue
 
